@@ -109,11 +109,13 @@ def prove(pid, spec, thorough):
     """returns dict(ok, obligations, discharged, failures[list of str], axioms{thm: [..]}, log)"""
     res = {"ok": False, "obligations": 0, "discharged": 0, "failures": [], "axioms": {}, "log": ""}
     module = spec["module"]
-    path = os.path.join(LEAN, *module.split(".")) + ".lean"
-    names = theorem_names(path)
+    modules = [module] + spec.get("extra_modules", [])
+    names = []
+    for mod in modules:
+        names += theorem_names(os.path.join(LEAN, *mod.split(".")) + ".lean")
     res["obligations"] = len(names)
     res["theorems"] = names
-    rc, out = sh(["lake", "build", module, "driver"], cwd=LEAN, timeout=3000)
+    rc, out = sh(["lake", "build"] + modules + ["driver"], cwd=LEAN, timeout=3000)
     res["log"] = out[-6000:]
     if rc != 0:
         errs = re.findall(r"error: ([^\n]*)", out)
@@ -121,7 +123,7 @@ def prove(pid, spec, thorough):
         # which theorems still check is unknown when the module does not build
         return res
     # forbidden tokens in every source file the property depends on
-    for f in module_files(module) + module_files("Main"):
+    for f in sum([module_files(mod) for mod in modules], []) + module_files("Main"):
         text = strip_comments(open(f).read())
         hit = FORBIDDEN.search(text) or (PARTIAL.search(text) if os.sep + "Matreex" + os.sep in f else None)
         if hit:
@@ -131,7 +133,7 @@ def prove(pid, spec, thorough):
     os.makedirs(audit_dir, exist_ok=True)
     audit = os.path.join(audit_dir, pid + ".lean")
     with open(audit, "w") as fh:
-        fh.write(f"import {module}\n" + "".join(f"#print axioms {n}\n" for n in names))
+        fh.write("".join(f"import {mod}\n" for mod in modules) + "".join(f"#print axioms {n}\n" for n in names))
     rc, out = sh(["lake", "env", "lean", audit], cwd=LEAN, timeout=1200)
     if rc != 0:
         res["failures"].append("axiom audit failed: " + out[-800:])
